@@ -40,7 +40,8 @@ def make_pool():
         g["a"]["b"]["length"] = 1
     g3 = g1.copy()
     g3["b"]["d"]["flow"] = -1            # invalid unless that edge is ignored / has error scale 0
-    return {"g1": g1, "g2": g2, "g3": g3, "e1": {("b", "d"): 0}, "o1": {}, "o3": {"use_subgraph_scanning_lowerbound": True}, "o2": {"optimize_with_safe_paths": False, "optimize_with_safe_zero_edges": False},
+    return {"g1": g1, "g2": g2, "g3": g3, "e1": {("b", "d"): 0}, "o1": {}, "o3": {"use_subgraph_scanning_lowerbound": True},
+            "o4": {"optimize_with_safety_as_subset_constraints": True}, "c0": [], "o2": {"optimize_with_safe_paths": False, "optimize_with_safe_zero_edges": False},
             "s1": {"threads": 1}, "c1": [[("a", "b"), ("b", "c")]], "i1": [("b", "d")],
             "t1": [("a", "b")]}      # caller-owned list of trusted edges, handed to every class that accepts one
 
